@@ -20,7 +20,7 @@ import (
 
 const nul = "\x00"
 
-var exprFormatter termformat.Formatter
+var exprFormatter, exprMaxFormatter termformat.Formatter
 
 func formatter(name string) termformat.Formatter {
 	switch name {
@@ -31,6 +31,11 @@ func formatter(name string) termformat.Formatter {
 			exprFormatter = withShadow(termformat.MustFromExpression("<{0}>"))
 		}
 		return exprFormatter
+	case "exprmax":
+		if exprMaxFormatter == nil {
+			exprMaxFormatter = withShadow(termformat.MustFromExpression("{0}of{2}"))
+		}
+		return exprMaxFormatter
 	}
 	return termformat.Default
 }
